@@ -1,8 +1,8 @@
-(* C08 - freshness at quiescence (guarded by: no stale snapshot message is sent) with the lock discipline of
-   Module.updateLock as auxiliary invariant *)
+(* C08 - freshness at quiescence for ALL schedules (since the repair c1c8ab8 the initial updates of a module are built and
+   sent under its updateLock), with the lock discipline of Module.updateLock as auxiliary invariant *)
 From Coq Require Import List Arith Bool Lia.
 Import ListNotations.
-Require Import FV.C08.Model FV.C08.Lemmas FV.C08.Silence.
+Require Import FV.C08.Model FV.C08.Lemmas FV.C08.Snapshot FV.C08.Silence.
 
 (* value of the last update message for p in a log *)
 Definition last_upd (p : pid) (l : list entry) : option nat :=
@@ -12,60 +12,165 @@ Lemma last_upd_app : forall p l e, last_upd p (l ++ [e]) =
   match e with EUpd q v => if pid_eqb q p then Some v else last_upd p l | _ => last_upd p l end.
 Proof. intros. unfold last_upd. rewrite fold_left_app; simpl. destruct e; auto. Qed.
 
-(* ---- steps of connection threads touch neither the driver threads nor the cache nor the module locks *)
+(* ---- steps of connection threads touch neither the driver threads nor the cache *)
 Lemma conn_step_frame : forall nd s a x,
   let s' := cstep nd s (TC a, x) in
-  uth s' = uth s /\ cache s' = cache s /\ ulock s' = ulock s /\ bcasts s' = bcasts s.
+  uth s' = uth s /\ cache s' = cache s /\ bcasts s' = bcasts s.
 Proof.
   intros nd s a x s'. unfold s'.
   apply (cstep_cases nd s (TC a, x)); simpl; intros; try discriminate; try (unf; auto; fail).
-  - apply handle_cases; intros; subst r; unf; auto.
-  - unfold after_snapshot. destruct todo; unf; auto.
+  apply handle_cases; intros; subst r; unf; auto.
 Qed.
 
-(* ---- lock discipline: a driver thread between its store and the end of its broadcast owns the module lock *)
+(* ---- lock discipline: a driver thread between its store and the end of its broadcast, and a connection thread
+   between make_update and send_reply of the initial updates of a module, own the updateLock of that module *)
 Definition in_bcast (s : state) (u : nat) (p : pid) : Prop :=
   u_pc (uth s u) = UBuild p \/ exists v all pend, u_pc (uth s u) = USend p v all pend.
-Definition lock_inv (s : state) : Prop := forall u p, in_bcast s u p -> ulock s (fst p) = Some u.
-(* the message of a running broadcast carries the cached value *)
-Definition val_inv (s : state) : Prop := forall u p v all pend, u_pc (uth s u) = USend p v all pend -> cache s p = v.
+Definition holds (s : state) (t : tid) (m : nat) : Prop :=
+  match t with
+  | TU u => exists p, in_bcast s u p /\ fst p = m
+  | TC c => match c_pc (cth s c) with CBuild _ m' _ _ | CSendU _ m' _ _ _ _ => m' = m | _ => False end
+  end.
+Definition lock_inv (s : state) : Prop := forall t m, holds s t m -> ulock s m = Some t.
+(* the message of a running broadcast, and a built initial update, carry the cached value *)
+Definition val_inv (s : state) : Prop :=
+  (forall u p v all pend, u_pc (uth s u) = USend p v all pend -> cache s p = v) /\
+  (forall c sc m i v todo g, c_pc (cth s c) = CSendU sc m i v todo g -> cache s (m, i) = v).
 
 Lemma not_in_bcast_next : forall s u p, in_bcast (next_upd s u) u p -> False.
 Proof.
   intros s u p [E | [v [all [pend E]]]]; destruct (uth_next_upd_self s u) as [_ [F | F]]; rewrite F in E; discriminate.
 Qed.
 
+Lemma lock_acquire : forall s s' t m, lock_inv s -> ulock s m = None ->
+  (forall t' m', holds s' t' m' -> (t' = t /\ m' = m) \/ holds s t' m') ->
+  ulock s' = upd (ulock s) m (Some t) -> lock_inv s'.
+Proof.
+  intros s s' t m L N H E t' m' K. rewrite E. destruct (H t' m' K) as [[-> ->] | K'].
+  - apply upd_same.
+  - pose proof (L t' m' K') as X. rewrite upd_other; auto. intros ->. congruence.
+Qed.
+Lemma lock_release : forall s s' t m, lock_inv s -> holds s t m ->
+  (forall t' m', holds s' t' m' -> t' <> t /\ holds s t' m') ->
+  ulock s' = upd (ulock s) m None -> lock_inv s'.
+Proof.
+  intros s s' t m L HT H E t' m' K. rewrite E. destruct (H t' m' K) as [N K'].
+  pose proof (L t' m' K') as X. pose proof (L t m HT) as Y. rewrite upd_other; auto. intros ->. congruence.
+Qed.
+Lemma lock_same : forall s s', lock_inv s -> (forall t' m', holds s' t' m' -> holds s t' m') ->
+  ulock s' = ulock s -> lock_inv s'.
+Proof. intros s s' L H E t' m' K. rewrite E. apply L; auto. Qed.
+
+(* holds only looks at the thread itself *)
+Lemma holds_U : forall s s' u m, uth s' u = uth s u -> holds s' (TU u) m -> holds s (TU u) m.
+Proof. intros s s' u m E. unfold holds, in_bcast. rewrite E. auto. Qed.
+Lemma holds_C : forall s s' c m, cth s' c = cth s c -> holds s' (TC c) m -> holds s (TC c) m.
+Proof. intros s s' c m E. unfold holds. rewrite E. auto. Qed.
+
+Lemma not_holds_enter : forall s c sc g m, holds (enter_groups s c sc g) (TC c) m -> False.
+Proof.
+  intros s c sc g m H. unfold holds in H. destruct (cth_enter_self s c sc g) as [_ [[_ E] | [_ E]]]; rewrite E in H; auto.
+Qed.
+
+(* a step of connection thread a: every other thread holds what it held *)
+Ltac other_holder a N :=
+  match goal with
+  | K : holds _ ?t ?m |- _ =>
+      destruct t as [c0 | u0];
+      [destruct (Nat.eq_dec c0 a) as [-> | N] | ]
+  end.
+
 Lemma lock_inv_step : forall nd s st, lock_inv s -> lock_inv (cstep nd s st).
 Proof.
   intros nd s [[a | u] x] L.
-  - destruct (conn_step_frame nd s a x) as [E1 [_ [E3 _]]]. unfold lock_inv, in_bcast in *. rewrite E1, E3. auto.
+  - apply (cstep_cases nd s (TC a, x)); simpl; intros; auto; try discriminate; inversion H; subst c; clear H.
+    + (* start *) apply (lock_same s); auto. intros t' m' K. other_holder a N.
+      * unfold holds in K; unf. rewrite upd_same in K; simpl in K. destruct K.
+      * revert K; apply holds_C; unf; apply upd_other; auto.
+      * revert K; apply holds_U; unf; auto.
+    + (* close *) apply (lock_same s); auto. intros t' m' K. other_holder a N.
+      * unfold holds in K; unf. rewrite upd_same in K; simpl in K. destruct K.
+      * revert K; apply holds_C; unf; apply upd_other; auto.
+      * revert K; apply holds_U; unf; auto.
+    + (* request *) apply (lock_same s); auto. intros t' m' K. other_holder a N.
+      * unfold holds in K; unf. rewrite upd_same in K; simpl in K. destruct K.
+      * revert K; apply holds_C; unf; apply upd_other; auto.
+      * revert K; apply holds_U; unf; auto.
+    + (* handler *) apply handle_cases; intros; subst r;
+        try (apply (lock_same s); [auto | | unf; auto]; intros t' m' K; other_holder a N;
+             [unfold holds in K; unf; rewrite upd_same in K; simpl in K; destruct K
+             | revert K; apply holds_C; unf; apply upd_other; auto
+             | revert K; apply holds_U; unf; auto]; fail).
+      apply (lock_same s); [auto | | unf; auto]. intros t' m' K. other_holder a N.
+      * exfalso; eapply not_holds_enter; eauto.
+      * revert K; apply holds_C; rewrite cth_enter_other by auto; unf; auto.
+      * revert K; apply holds_U; unf; auto.
+    + (* module lock, nothing to send *) apply (lock_same s); [auto | | unf; auto]. intros t' m' K. other_holder a N.
+      * exfalso; eapply not_holds_enter; eauto.
+      * revert K; apply holds_C; rewrite cth_enter_other by auto; auto.
+      * revert K; apply holds_U; unf; auto.
+    + (* module lock taken *) apply (lock_acquire s _ (TC a) m); auto. intros t' m' K. other_holder a N.
+      * left. unfold holds in K; unf. rewrite upd_same in K; simpl in K. auto.
+      * right. revert K; apply holds_C; unf; apply upd_other; auto.
+      * right. revert K; apply holds_U; unf; auto.
+    + (* build *) apply (lock_same s); auto. intros t' m' K. other_holder a N.
+      * unfold holds in *; unf. rewrite upd_same in K; simpl in K. rewrite H0. auto.
+      * revert K; apply holds_C; unf; apply upd_other; auto.
+      * revert K; apply holds_U; unf; auto.
+    + (* last initial update of the module: lock released *)
+      apply (lock_release s _ (TC a) m); auto; [unfold holds; rewrite H0; auto | | unf; auto].
+      intros t' m' K. other_holder a N.
+      * exfalso; eapply not_holds_enter; eauto.
+      * split; [congruence |]. revert K; apply holds_C; rewrite cth_enter_other by auto; unf; apply upd_other; auto.
+      * split; [discriminate |]. revert K; apply holds_U; unf; auto.
+    + (* initial update *) apply (lock_same s); auto. intros t' m' K. other_holder a N.
+      * unfold holds in *; unf. rewrite upd_same in K; simpl in K. rewrite H0. auto.
+      * revert K; apply holds_C; unf; apply upd_other; auto.
+      * revert K; apply holds_U; unf; auto.
+    + (* reply *) apply (lock_same s); auto. intros t' m' K. other_holder a N.
+      * unfold holds in K; unf. rewrite upd_same in K; simpl in K. destruct K.
+      * revert K; apply holds_C; unf; apply upd_other; auto.
+      * revert K; apply holds_U; unf; auto.
   - apply (cstep_cases nd s (TU u, x)); simpl; intros; auto; try discriminate; inversion H; subst u0; clear H;
-      unfold lock_inv, release in *; intros u' q B.
-    + (* start *) destruct (Nat.eq_dec u' u) as [-> | N]; [exfalso; eapply not_in_bcast_next; eauto |].
-      unfold in_bcast in B. rewrite uth_next_upd_other in B by auto. unf. apply L; auto.
-    + (* store, exported *) unfold in_bcast in B; unf. destruct (Nat.eq_dec u' u) as [-> | N].
-      * rewrite !upd_same in B; simpl in B. destruct B as [B | [? [? [? B]]]]; [| discriminate]. inversion B; subst.
-        apply upd_same.
-      * rewrite !upd_other in B by auto. pose proof (L u' q B) as Lq.
-        rewrite upd_other; auto. intros E. rewrite E in Lq. congruence.
-    + (* store, hidden *) destruct (Nat.eq_dec u' u) as [-> | N]; [exfalso; eapply not_in_bcast_next; eauto |].
-      unfold in_bcast in B. rewrite uth_next_upd_other in B by auto. unf. rewrite upd_other in B by auto. apply L; auto.
-    + (* no listeners *) destruct (Nat.eq_dec u' u) as [-> | N]; [exfalso; eapply not_in_bcast_next; eauto |].
-      unfold in_bcast in B. rewrite uth_next_upd_other in B by auto. unf. pose proof (L u' q B) as Lq.
-      assert (Lp : ulock s (fst p) = Some u) by (apply L; left; auto).
-      rewrite upd_other; auto. intros E. rewrite E in Lq. congruence.
-    + (* listeners selected *) unfold in_bcast in B; unf. destruct (Nat.eq_dec u' u) as [-> | N].
-      * rewrite upd_same in B; simpl in B. destruct B as [B | [? [? [? B]]]]; [discriminate |]. inversion B; subst.
-        apply L. left; auto.
-      * rewrite upd_other in B by auto. apply L; auto.
-    + (* last send *) destruct (Nat.eq_dec u' u) as [-> | N]; [exfalso; eapply not_in_bcast_next; eauto |].
-      unfold in_bcast in B. rewrite uth_next_upd_other in B by auto. unf. pose proof (L u' q B) as Lq.
-      assert (Lp : ulock s (fst p) = Some u) by (apply L; right; eauto).
-      rewrite upd_other; auto. intros E. rewrite E in Lq. congruence.
-    + (* send *) unfold in_bcast in B; unf. destruct (Nat.eq_dec u' u) as [-> | N].
-      * rewrite upd_same in B; simpl in B. destruct B as [B | [? [? [? B]]]]; [discriminate |]. inversion B; subst.
-        apply L. right; eauto.
-      * rewrite upd_other in B by auto. apply L; auto.
+      unfold release in *.
+    + (* start *) apply (lock_same s); [auto | | unf; auto]. intros [c0 | u'] m' K.
+      * revert K; apply holds_C; unf; auto.
+      * destruct (Nat.eq_dec u' u) as [-> | N]; [destruct K as [q [K _]]; exfalso; eapply not_in_bcast_next; eauto |].
+        revert K; apply holds_U; apply uth_next_upd_other; auto.
+    + (* store, exported *) apply (lock_acquire s _ (TU u) (fst p)); auto. intros [c0 | u'] m' K.
+      * right. revert K; apply holds_C; unf; auto.
+      * destruct (Nat.eq_dec u' u) as [-> | N].
+        -- left. destruct K as [q [[K | [? [? [? K]]]] E]]; unf; rewrite !upd_same in K; simpl in K; [| discriminate].
+           inversion K; subst. auto.
+        -- right. revert K; apply holds_U; unf; rewrite !upd_other by auto; auto.
+    + (* store, hidden *) apply (lock_same s); [auto | | unf; auto]. intros [c0 | u'] m' K.
+      * revert K; apply holds_C; unf; auto.
+      * destruct (Nat.eq_dec u' u) as [-> | N]; [destruct K as [q [K _]]; exfalso; eapply not_in_bcast_next; eauto |].
+        revert K; apply holds_U; rewrite uth_next_upd_other by auto; simpl; apply upd_other; auto.
+    + (* no listeners *)
+      apply (lock_release s _ (TU u) (fst p)); auto; [exists p; split; auto; left; auto | | unf; auto].
+      intros [c0 | u'] m' K.
+      * split; [discriminate |]. revert K; apply holds_C; unf; auto.
+      * destruct (Nat.eq_dec u' u) as [-> | N]; [destruct K as [q [K _]]; exfalso; eapply not_in_bcast_next; eauto |].
+        split; [congruence |]. revert K; apply holds_U; rewrite uth_next_upd_other by auto; auto.
+    + (* listeners selected *) apply (lock_same s); auto. intros [c0 | u'] m' K.
+      * revert K; apply holds_C; unf; auto.
+      * destruct (Nat.eq_dec u' u) as [-> | N].
+        -- destruct K as [q [[K | [? [? [? K]]]] E]]; unf; rewrite upd_same in K; simpl in K; [discriminate |].
+           inversion K; subst. exists q; split; auto. left; auto.
+        -- revert K; apply holds_U; unf; apply upd_other; auto.
+    + (* last send *)
+      apply (lock_release s _ (TU u) (fst p)); auto; [exists p; split; auto; right; eauto | | unf; auto].
+      intros [c0 | u'] m' K.
+      * split; [discriminate |]. revert K; apply holds_C; unf; auto.
+      * destruct (Nat.eq_dec u' u) as [-> | N]; [destruct K as [q [K _]]; exfalso; eapply not_in_bcast_next; eauto |].
+        split; [congruence |]. revert K; apply holds_U; rewrite uth_next_upd_other by auto; auto.
+    + (* send *) apply (lock_same s); auto. intros [c0 | u'] m' K.
+      * revert K; apply holds_C; unf; auto.
+      * destruct (Nat.eq_dec u' u) as [-> | N].
+        -- destruct K as [q [[K | [? [? [? K]]]] E]]; unf; rewrite upd_same in K; simpl in K; [discriminate |].
+           inversion K; subst. exists q; split; auto. right; eauto.
+        -- revert K; apply holds_U; unf; apply upd_other; auto.
 Qed.
 
 Lemma val_inv_step : forall nd s st, lock_inv s -> val_inv s -> val_inv (cstep nd s st).
